@@ -11,5 +11,20 @@ old["functions"] = names
 old["classes"] = sorted(c.qualname for c in p.classes.values())
 from sa.features import features_of
 old["features"] = {f.qualname: sorted(features_of(f.node)) for f in p.functions.values() if features_of(f.node)}
+# the command-line interface of the pinned tree: option -> declared type / choices (a later narrowing of what an option accepts is
+# judged against this: "for all parameter settings the option help allows")
+import ast
+opts = {}
+args_mod = p.modules["src.args"]
+for n in ast.walk(args_mod.tree):
+    if isinstance(n, ast.Call) and isinstance(n.func, ast.Attribute) and n.func.attr == "add_argument":
+        kw = {k.arg: k.value for k in n.keywords if k.arg}
+        dest = kw["dest"].value if isinstance(kw.get("dest"), ast.Constant) else None
+        if dest:
+            opts[dest] = {"type": ast.unparse(kw["type"]) if "type" in kw else None,
+                          "choices": ast.literal_eval(kw["choices"]) if "choices" in kw else None,
+                          "nargs": ast.literal_eval(kw["nargs"]) if "nargs" in kw else None,
+                          "action": ast.literal_eval(kw["action"]) if "action" in kw else None}
+old["options"] = opts
 json.dump(old, open(path, "w"), indent=0)
 print(len(names), "functions")
